@@ -207,7 +207,12 @@ def run_case(case):
     d_data = digest(data)
     d_model = digest(model)
     # ---- expectations
-    lp_exp = sum(p.lnprob(v) for p, v in zip(plist, vec))
+    # textbook log-densities, written out here (closed support for the uniform prior) rather than asked of the prior objects
+    def _lnp(p, v):
+        if isinstance(p, Uniform):
+            return -math.log(p.upper_bound - p.lower_bound) if p.lower_bound <= v <= p.upper_bound else -np.inf
+        return -0.5 * ((v - p.mu) / p.sd) ** 2 - math.log(p.sd * math.sqrt(2 * math.pi))
+    lp_exp = sum(_lnp(p, v) for p, v in zip(plist, vec))
     if invalid:
         lp_exp = -np.inf
     if case["two"] and not invalid:
